@@ -28,6 +28,7 @@ func runC09(c *core.Ctx) {
 	c.Rule("R3", "a worker killed by a panicking job posts a spawn-loop wake-up after its decrement", 1)
 	c.Rule("R4", "Schedule/ScheduleWithTimeout/Invoke* result and argument discipline", 4)
 	c.Rule("R6", "every lock a worker-pool function takes is released in the same mode on every return path", 3)
+	c.Rule("R7", "the worker fetches the job channel through jobQueue.GetChannel() in every iteration of its loop: the call is what wakes the buffered queue's loader, so a channel fetched once leaves parked jobs unloaded", 1)
 	c.Rule("R5", "no spawn request is lost: the only consumers of the spawn-request channel sit in the spawn loop, and every request taken is followed (unless the pool is found closed) by a sizing pass before the next one is taken or the loop ends", 1)
 	// worker body: closure started with `go` that receives from jobQueue.GetChannel()
 	var body, spawner *ssa.Function
@@ -222,6 +223,52 @@ func runC09(c *core.Ctx) {
 		c.Check(ok, "R1", "worker-body/panic-isolation", p.Pos(body.Pos()), detail, detail)
 	}
 	// who else invokes jobs: any dynamic call of a func() value obtained from the job queue elsewhere
+	// ---------------- R7: every wait for a job goes through GetChannel() again
+	{
+		ok, detail := func() (bool, string) {
+			n := 0
+			bad := ""
+			core.Instrs(body, func(ins ssa.Instruction) {
+				var chans []ssa.Value
+				switch x := ins.(type) {
+				case *ssa.Select:
+					for _, st := range x.States {
+						if st.Dir == types.RecvOnly {
+							chans = append(chans, st.Chan)
+						}
+					}
+				case *ssa.UnOp:
+					if x.Op == token.ARROW {
+						chans = append(chans, x.X)
+					}
+				}
+				for _, ch := range chans {
+					call, isC := core.Resolve(ch).(*ssa.Call)
+					if !isC {
+						continue
+					}
+					if h := core.Callee(&call.Call); h == nil || core.FuncName(h) != "fpgo.BufferedChannelQueue.GetChannel" {
+						continue
+					}
+					n++
+					if !core.InLoop(ins.Block()) {
+						continue // a single wait outside any loop
+					}
+					if !core.InLoop(call.Block()) || !core.InstrDominates(call, ins) {
+						bad = "the worker waits repeatedly (" + p.InstrPos(ins) + ") on a job channel it fetched once, outside its loop (" + p.InstrPos(call) + "): GetChannel() is also what wakes the queue's loader, so jobs parked in the overflow buffer while all workers are busy are not loaded once submissions stop - accepted jobs never run"
+					}
+				}
+			})
+			if n == 0 {
+				return false, "no wait on jobQueue.GetChannel() found in the worker body"
+			}
+			if bad != "" {
+				return false, bad
+			}
+			return true, "each iteration of the worker loop fetches the job channel through GetChannel() (which wakes the queue's loader) before waiting on it"
+		}()
+		c.Check(ok, "R7", "worker-body/job-wait", p.Pos(body.Pos()), detail, detail)
+	}
 	// ---------------- R2
 	li := core.ComputeLocks(p)
 	lockBalance(c, li, "R6", funcsOfType(p, p.Worker, "DefaultWorkerPool"))
